@@ -326,6 +326,9 @@ class ApplyObservers(Contract):
     path = "traits/observation/observe.py"
     qualname = "apply_observers"
     properties = ("C09", "C19")
+    # asked when the function leaves the verifier's subset or an obligation stays undecided: registrations AND removals that
+    # raise half-way over several graphs, registration counts 1..3, on the real code
+    undecided_probe = dict(harness="observe", family="atomic")
     assumptions = ("A-PY", "A-UNDO", "add_or_remove_notifiers through the contract of _AddOrRemoveNotifier.__call__")
 
     def configure(self, cx, I, ov):
